@@ -21,6 +21,8 @@ WHAT = {
                                "'Attempts() <= NumRetries' (NumRetries = number of times to retry)",
     "attempts-miscounted": "Attempts(), which the retry policy consults, is not the number of attempts made so far "
                            "(Query/Batch.attempt feed the shared counter)",
+    "attempt-after-result": "a request for the statement was sent after the caller had got its result (the executions' "
+                            "context is cancelled when executeQuery returns; a losing execution must stop)",
     "retry-wrong-host": "a retry did not go where the policy's decision says (Retry: same host, RetryNextHost: "
                         "the next usable host offered by the host selection policy)",
     "retry-without-decision": "a retry was made without asking RetryPolicy.GetRetryType",
@@ -93,7 +95,13 @@ def _tlc_traces(ctx, traces, nshards):
     runs along as the model's ghost variable, so an accepted trace comes back with the keys the monitor raised on
     exactly the recorded events.  Pass 2 (Trace_ExecutorMon): the monitor alone over the traces pass 1 rejected.
     Returns (mon: id -> {viol, ...}, accepted ids, states, transitions)."""
-    ids = list(traces.keys())
+    # Concurrent executions observed on the wire (mode e2e:spec): the observation points (a node's receipt and
+    # answer, the observer callback) are not atomic with the driver's attempt counter, so the event order of
+    # DIFFERENT executions in the log need not be a linearisation Executor.tla accepts.  Those traces get the
+    # property monitor only (every clause it evaluates there is order-insensitive across executions or uses
+    # only per-execution causal order).
+    noconf = {t for t in traces if traces[t][0].get("mode") == "e2e:spec"}
+    ids = [t for t in traces if t not in noconf]
 
     def conf(p):
         return vf.run_tlc(ctx, "Trace_Executor", "Trace_Executor.cfg", workers=1, heap="2g", timeout=900,
@@ -113,7 +121,7 @@ def _tlc_traces(ctx, traces, nshards):
                 mon[a["id"]] = dict(id=a["id"], viol=a["viol"], first=0, execs=a["execs"], sent=a["sent"])
             st += r.distinct
             trn += r.generated
-        rejected = [t for t in ids if t not in acc]
+        rejected = [t for t in ids if t not in acc] + sorted(noconf)
         if rejected:
             for r in ex.map(monr, _shard(ctx, traces, rejected, nshards, "mon")):
                 if not r.ok:
@@ -122,8 +130,9 @@ def _tlc_traces(ctx, traces, nshards):
                     mon[m["id"]] = m
                 st += r.distinct
                 trn += r.generated
-    ctx.log("TLC on %d real traces: %d conform to Executor.tla, %d do not (monitored separately)" % (len(ids), len(acc), len(rejected)))
-    return mon, acc, st, trn
+    ctx.log("TLC on %d real traces: %d conform to Executor.tla, %d do not (monitored separately); %d wire-level concurrent "
+            "traces monitored only" % (len(ids), len(acc), len(rejected) - len(noconf), len(noconf)))
+    return mon, acc | noconf, st, trn
 
 
 def run(ctx):
@@ -236,6 +245,7 @@ def run(ctx):
     _confirm_timing_dependent(ctx, binary, cases, traces, sumby, mon)
     _verdicts(ctx, cases, traces, sumby, mon, acc)
 
+    nspec = sum(1 for t in traces.values() if t[0].get("mode") == "e2e:spec")
     casesby = {c["id"]: c for c in cases}
     nviol = sum(1 for m in mon.values() if m["viol"])
     exact = sum(1 for s in sums if s["exact"])
@@ -243,7 +253,8 @@ def run(ctx):
     sample_id = next((s["id"] for s in sums if s["exact"] and len(casesby[s["id"]]["hist"]) >= 12), sums[0]["id"])
     ctx.cov = dict(
         states=states, transitions=trans,
-        traces_validated_against_impl=len(acc),
+        traces_validated_against_impl=len(acc) - nspec,
+        wire_level_concurrent_traces_monitored_only=nspec,
         exhaustive=True,
         model_configs=[dict(cfg=main_cfg, distinct=mc.distinct, generated=mc.generated, depth=mc.depth),
                        dict(cfg="MC_Executor_live.cfg", distinct=res["live"].distinct, generated=res["live"].generated)],
@@ -321,6 +332,9 @@ def _verdicts(ctx, cases, traces, sumby, mon, acc):
             keys.append("executor-panic")
         tr = traces[tid]
         hdr = {k: tr[0][k] for k in ("hosts", "polkind", "poln", "allow", "k", "idem", "policy", "mode", "stmt", "observer", "entries") if k in tr[0]}
+        # the statement kind is part of this class: Query.execute and Batch.execute / Conn.executeBatch hand the
+        # executor's context to the connection in different places
+        keys = [k + ":" + hdr.get("stmt", "?") if k == "attempt-after-result" else k for k in keys]
         for key in keys:
             perkey[key] += 1
             if perkey[key] > 25:
@@ -330,7 +344,7 @@ def _verdicts(ctx, cases, traces, sumby, mon, acc):
                           model_behaviour=[_fmt(e) for e in casesby[tid]["hist"]] if tid in casesby else None,
                           case=casesby.get(tid))
             ctx.violation(key, "%s; scenario %s, real trace: %s" % (
-                WHAT.get(key, key), json.dumps(hdr, sort_keys=True), " ".join(_fmt(e) for e in tr[1:-1])), detail)
+                WHAT.get(key.split(":")[0], key), json.dumps(hdr, sort_keys=True), " ".join(_fmt(e) for e in tr[1:-1])), detail)
         if not keys and tid not in acc:
             ndrift += 1
             if ndrift <= 5:
